@@ -56,7 +56,8 @@ def observe(ctx: fw.Ctx, hists):
 def check_op(ctx, h, r):
     path = r.op[1]
     scoped = path.startswith("@")
-    inp = {"doc": h.text, "ops": [list(x.op) for x in h.recs], "at": list(r.op), "before": r.before_text}
+    inp = {"doc": h.text, "ops": [list(x.op) for x in h.recs], "at": list(r.op), "before": r.before_text,
+           "stream": h.info.get("stream")}
     base_key = {"op": r.op[0], "path": ep.shape_of_path(path), "wrapper": h.info.get("wrapper")}
     if ep.quoted_identifier_segment(path):
         base_key["quoted_ident"] = True
